@@ -228,7 +228,28 @@ def run(ctx):
                 kw = {'p': c['p'], 'q': c['q'], 'ell': c['ell']}
                 if form == 'dual':
                     kw['slacks'] = c['slacks']
-                prob = so.sig_constrained_relaxation(f, gts, eqs, X=X, form=form, **kw)
+                # the Lagrangian the Problem exposes (metadata['lagrangian'], where users and solution recovery read it) satisfies the
+                # identity with the builder's own gamma and multipliers (captured by wrapping make_sig_lagrangian from here), at
+                # every level ell
+                import sageopt.relaxations.sage_sigs as ss
+                captured, orig_mk = [], ss.make_sig_lagrangian
+
+                def cap(*a, **k):
+                    out = orig_mk(*a, **k)
+                    captured.append(out)
+                    return out
+                ss.make_sig_lagrangian = cap
+                try:
+                    prob = so.sig_constrained_relaxation(f, gts, eqs, X=X, form=form, **kw)
+                finally:
+                    ss.make_sig_lagrangian = orig_mk
+                if captured and 'lagrangian' in prob.metadata:
+                    L_, ineq_, eq_, gamma_ = captured[-1]
+                    why = identity_oracle(c, rng, f, prob.metadata['lagrangian'], ineq_, eq_, gamma_)
+                    ctx.count('audit:metadata-lagrangian')
+                    if why:
+                        ctx.violation('Lagrangian identity (metadata[\'lagrangian\'] of the %s problem, ell = %d): %s' % (form, c['ell'], why),
+                                      {'stream': 'audit', 'form': form, 'case': c})
                 vals[form] = rm.solve_ecos(prob)
         except Exception as e:  # noqa: BLE001
             ctx.incon('audit: builder raised %s' % type(e).__name__)
